@@ -1,13 +1,15 @@
 ------------------------------- MODULE ParamsMC -------------------------------
 EXTENDS Params
-VARIABLES shape, fault
+CONSTANT FaultKinds
+VARIABLES shape, fault, verdict
 Shapes == {<<1>>, <<3>>, <<2, 1>>, <<3, 1, 2>>}
-Faults == [sec : {"num", "cell", "face"}, c : 0..3, f : 0..3, t : 1..14, kind : {"omit", "neg", "zero", "inf"}] \cup {[sec |-> "none", c |-> 0, f |-> 0, t |-> 1, kind |-> "omit"]}
+Faults == [sec : {"num", "cell", "face"}, c : 0..3, f : 0..3, t : 1..14, kind : FaultKinds] \cup {[sec |-> "none", c |-> 0, f |-> 0, t |-> 1, kind |-> "omit"]}
 Init == /\ shape \in Shapes /\ fault \in Faults
         /\ Applicable(shape, fault) /\ Meaningful(fault)
         /\ (fault.sec = "num" => fault.c = 0 /\ fault.f = 0) /\ (fault.sec = "cell" => fault.f = 0)
-Next == UNCHANGED <<shape, fault>>
-Spec == Init /\ [][Next]_<<shape, fault>>
+        /\ verdict = Verdict(fault)
+Next == UNCHANGED <<shape, fault, verdict>>
+Spec == Init /\ [][Next]_<<shape, fault, verdict>>
 Inv_Schema == TokensDistinct(shape) /\ SamplingNotBelowStep /\ Verdict(fault) \in {"accept", "reject", "either"}
 \* every omission is rejected and every documented INF accepted
 Inv_Rules == /\ (fault.sec # "none" /\ fault.kind = "omit") => Verdict(fault) = "reject"
